@@ -140,6 +140,25 @@ def check_meshes(rng):
                     ms = [r.ind for r in c.reg]
                     if any(m < 0 or m >= n for m in ms) or (len(ms) == 2 and abs(ms[0] - ms[1]) != 1):
                         bad(f"Interferometer(mesh={mesh}) on {label}: command on modes {ms} (not adjacent / out of range)")
+    # the mesh may also be requested when the operation is DECOMPOSED (the documented way for a compile target to pass options:
+    # Compiler.decompositions = {"Interferometer": {"mesh": ...}}); it then overrides the mesh given to the constructor
+    for n in (3, 4):
+        reg = [RegRef(k) for k in range(n)]
+        label, U = list(unitaries(n, rng, 1))[-1]
+        for m1 in MESHES:
+            for m2 in MESHES:
+                if m1 == m2 or "sun_compact" in (m1, m2):
+                    continue
+                EVAL[0] += 1
+                try:
+                    cmds = ops.Interferometer(U, mesh=m1).decompose(reg, mesh=m2)
+                    W = fold(cmds, n)
+                except Exception as e:
+                    bad(f"Interferometer(mesh={m1}).decompose(mesh={m2}) on {label} (n={n}) raised {type(e).__name__}: {e}")
+                    continue
+                err = abs(W - U).max()
+                if err > 1e-7:
+                    bad(f"Interferometer(mesh={m1}) decomposed with the option mesh={m2} on {label} (n={n}): the circuit implements a unitary that differs from the input by {err:.3g}")
     # invalid inputs
     for mesh_fn in (dec.rectangular, dec.rectangular_phase_end, dec.rectangular_MZ, dec.rectangular_symmetric, dec.triangular):
         EVAL[0] += 1
